@@ -280,6 +280,7 @@ type world struct {
 	lateBad         bool
 	settleFail      bool
 	settleWait      time.Duration
+	jitter          int // scheduler yields between a released answer and a racing instruction
 }
 
 func newWorld(cap, workers, n int) *world {
@@ -446,8 +447,55 @@ func (w *world) infosTok(l []*api.PinInfo) string {
 	return strings.Join(s, ",")
 }
 
+// release applies a daemon-side action to the oldest live parked call for cid c (no waiting).
+func (w *world) release(kind string, c int) {
+	w.d.mu.Lock()
+	defer w.d.mu.Unlock()
+	pc := w.d.callFor(c)
+	if pc == nil {
+		return
+	}
+	switch kind {
+	case "e":
+		w.d.applyEffect(pc)
+	case "k":
+		w.d.applyEffect(pc)
+		w.d.remove(pc)
+		pc.rel <- false
+	case "x":
+		if pc.kind == 'U' {
+			w.d.failed[c] = true
+		}
+		w.d.remove(pc)
+		pc.rel <- true
+	}
+}
+
 // act performs one scripted action and returns its ret= token.
 func (w *world) act(a string) (string, bool) {
+	if i := strings.IndexByte(a, '&'); i >= 0 {
+		// the daemon's answer races with an instruction: release, do not wait, instruct
+		d, ins := a[:i], a[i+1:]
+		f := strings.SplitN(d, ":", 2)
+		if len(f) != 2 || (f[0] != "k" && f[0] != "x") {
+			return "", false
+		}
+		c, err := strconv.Atoi(f[1])
+		if err != nil || c < 0 || c >= w.n {
+			return "", false
+		}
+		if !(strings.HasPrefix(ins, "t:") || strings.HasPrefix(ins, "u:") || strings.HasPrefix(ins, "r:")) {
+			return "", false
+		}
+		if !w.validInstr(ins) {
+			return "", false
+		}
+		w.release(f[0], c)
+		for k := 0; k < w.jitter; k++ {
+			runtime.Gosched()
+		}
+		return w.act(ins)
+	}
 	if a == "R" {
 		ch := w.call(func() apiRet {
 			l, err := w.spt.RecoverAll(w.ctx)
@@ -523,25 +571,7 @@ func (w *world) act(a string) (string, bool) {
 				return "ret=p:-", true
 			}
 		case "e", "k", "x":
-			w.d.mu.Lock()
-			pc := w.d.callFor(c)
-			if pc != nil {
-				switch f[0] {
-				case "e":
-					w.d.applyEffect(pc)
-				case "k":
-					w.d.applyEffect(pc)
-					w.d.remove(pc)
-					pc.rel <- false
-				case "x":
-					if pc.kind == 'U' {
-						w.d.failed[c] = true
-					}
-					w.d.remove(pc)
-					pc.rel <- true
-				}
-			}
-			w.d.mu.Unlock()
+			w.release(f[0], c)
 			w.settle()
 			return "ret=-", true
 		case "l":
@@ -553,6 +583,20 @@ func (w *world) act(a string) (string, bool) {
 		}
 	}
 	return "", false
+}
+
+// validInstr checks an instruction token without executing it.
+func (w *world) validInstr(a string) bool {
+	f := strings.SplitN(a, ":", 2)
+	if len(f) != 2 {
+		return false
+	}
+	if f[0] == "t" {
+		c, k, _, _, ok := parsePinTok(f[1])
+		return ok && c < w.n && k != "0"
+	}
+	c, err := strconv.Atoi(f[1])
+	return err == nil && c >= 0 && c < w.n
 }
 
 func (w *world) collectLate() {
@@ -662,6 +706,8 @@ type gen struct {
 	w        *world
 	shared   map[int]string // cid -> pin token last tracked
 	draining int
+	profile  int // 0 mixed, 1 burst (queue pressure), 2 churn on one cid, 3 faulty daemon, 4 recover rounds
+	hot      int // the cid the churn profile insists on
 }
 
 func (g *gen) parkedCids() []int {
@@ -682,6 +728,9 @@ func (g *gen) parkedCids() []int {
 func (g *gen) pinTok(c int) string {
 	r := g.r
 	ks := []string{"h", "h", "h", "h", "h", "e", "e", "g", "r", "r", "r", "z", "m"}
+	if g.profile == 1 {
+		ks = []string{"h", "h", "e", "g"} // burst: everything wants a queue slot
+	}
 	k := ks[r.Intn(len(ks))]
 	// a meta entry stays meta most of the time and data stays data
 	if cur, ok := g.shared[c]; ok && r.Chance(9, 10) {
@@ -705,64 +754,120 @@ func (g *gen) pinTok(c int) string {
 	return fmt.Sprintf("%d.%s.%s.%d", c, k, m, t)
 }
 
+func (g *gen) pickCid() int {
+	if g.profile == 2 && g.r.Chance(3, 4) {
+		return g.hot
+	}
+	return g.r.Intn(g.w.n)
+}
+
+func (g *gen) instr() string {
+	r := g.r
+	x := r.Intn(100)
+	switch {
+	case x < 55:
+		c := g.pickCid()
+		tok := g.pinTok(c)
+		g.shared[c] = tok
+		return "t:" + tok
+	case x < 80:
+		c := g.pickCid()
+		delete(g.shared, c)
+		return fmt.Sprintf("u:%d", c)
+	default:
+		return fmt.Sprintf("r:%d", g.pickCid())
+	}
+}
+
 func (g *gen) next() string {
 	r := g.r
 	n := g.w.n
 	parked := g.parkedCids()
+	g.w.jitter = r.Intn(4)
 	if g.draining > 0 {
 		if len(parked) == 0 {
 			g.draining = 0
 			if r.Chance(1, 2) {
+				g.draining = 1
 				if r.Chance(2, 3) {
-					g.draining = 1
 					return "R"
 				}
-				g.draining = 1
 				return fmt.Sprintf("r:%d", r.Intn(n))
 			}
 		} else {
 			return fmt.Sprintf("k:%d", parked[r.Intn(len(parked))])
 		}
 	}
+	// weights: instruction / recover / lose / drain / daemon action
+	wInstr, wRec, wLose, wDrain := 42, 13, 3, 6
+	switch g.profile {
+	case 1:
+		wInstr, wRec, wLose, wDrain = 70, 6, 1, 3
+	case 2:
+		wInstr, wRec, wLose, wDrain = 55, 8, 2, 4
+	case 3:
+		wInstr, wRec, wLose, wDrain = 35, 15, 6, 4
+	case 4:
+		wInstr, wRec, wLose, wDrain = 30, 25, 5, 12
+	}
 	x := r.Intn(100)
 	switch {
-	case x < 30:
-		c := r.Intn(n)
-		tok := g.pinTok(c)
-		g.shared[c] = tok
-		return "t:" + tok
-	case x < 42:
-		c := r.Intn(n)
-		delete(g.shared, c)
-		return fmt.Sprintf("u:%d", c)
-	case x < 49:
-		return fmt.Sprintf("r:%d", r.Intn(n))
-	case x < 55:
-		return "R"
-	case x < 58:
+	case x < wInstr:
+		ins := g.instr()
+		if strings.HasPrefix(ins, "r:") {
+			ins = g.instr()
+		}
+		return ins
+	case x < wInstr+wRec:
+		if r.Chance(1, 2) {
+			return "R"
+		}
+		return fmt.Sprintf("r:%d", g.pickCid())
+	case x < wInstr+wRec+wLose:
 		return fmt.Sprintf("l:%d", r.Intn(n))
-	case x < 64:
+	case x < wInstr+wRec+wLose+wDrain:
 		g.draining = 1
 		fallthrough
 	default:
 		if len(parked) == 0 {
-			if r.Chance(1, 4) {
+			if r.Chance(1, 5) {
 				return fmt.Sprintf("k:%d", r.Intn(n)) // nothing parked: a no-op
 			}
-			c := r.Intn(n)
-			tok := g.pinTok(c)
-			g.shared[c] = tok
-			return "t:" + tok
+			return g.instr()
 		}
 		c := parked[r.Intn(len(parked))]
-		y := r.Intn(10)
+		if g.profile == 2 && r.Chance(1, 2) {
+			for _, pc := range parked {
+				if pc == g.hot {
+					c = pc
+				}
+			}
+		}
+		y := r.Intn(20)
+		fault := 4
+		if g.profile == 3 {
+			fault = 8
+		}
 		switch {
-		case y < 6:
-			return fmt.Sprintf("k:%d", c)
-		case y < 8:
+		case y < 3: // the answer races with an instruction, mostly on the same cid
+			d := "k"
+			if r.Chance(1, 4) {
+				d = "x"
+			}
+			save := g.hot
+			savep := g.profile
+			if r.Chance(3, 4) {
+				g.hot, g.profile = c, 2
+			}
+			ins := g.instr()
+			g.hot, g.profile = save, savep
+			return fmt.Sprintf("%s:%d&%s", d, c, ins)
+		case y < 3+fault:
 			return fmt.Sprintf("x:%d", c)
-		default:
+		case y < 5+fault:
 			return fmt.Sprintf("e:%d", c)
+		default:
+			return fmt.Sprintf("k:%d", c)
 		}
 	}
 }
@@ -777,6 +882,10 @@ func runSchedule(cap, workers, n int, acts []string, r *common.Rng, length int, 
 	groups = append(groups, w.obs())
 	var done []string
 	g := &gen{r: r, w: w, shared: map[int]string{}}
+	if r != nil {
+		g.profile = []int{0, 0, 0, 1, 1, 2, 2, 3, 4, 4}[r.Intn(10)]
+		g.hot = r.Intn(n)
+	}
 	total := len(acts)
 	if acts == nil {
 		total = length
